@@ -151,11 +151,14 @@ fn gen_big(r: &mut Rng) -> BigUint {
         _ => { let k = r.range(1, 20) as usize; BigUint::from_bytes_le(&r.bytes(k)) }
     }
 }
+/// when set, gen_val produces no empty vectors (an empty vector decodes at ANY vector type, which hides element-type mismatches)
+pub static NONEMPTY_VECS: std::sync::atomic::AtomicBool = std::sync::atomic::AtomicBool::new(false);
 /// an inhabitant of t (None if the budget runs out on an uninhabited or too deep type)
 pub fn gen_val(r: &mut Rng, env: &Env, t: &T, budget: u32) -> Option<V> {
     let t = trace(env, t)?;
     if budget == 0 {
-        return match t { T::Opt(_) => Some(V::Opt(None)), T::Vec(_) => Some(V::Vec(vec![])), T::Prim(_) => gen_val(r, env, t, 1), _ => None };
+        let ne = NONEMPTY_VECS.load(std::sync::atomic::Ordering::Relaxed);
+        return match t { T::Opt(_) => Some(V::Opt(None)), T::Vec(_) if !ne => Some(V::Vec(vec![])), T::Prim(_) => gen_val(r, env, t, 1), _ => None };
     }
     let b = budget - 1;
     Some(match t {
@@ -181,9 +184,11 @@ pub fn gen_val(r: &mut Rng, env: &Env, t: &T, budget: u32) -> Option<V> {
         T::Var(_) => unreachable!(),
         T::Opt(x) => if r.coin(1, 3) { V::Opt(None) } else { match gen_val(r, env, x, b) { Some(v) => V::Opt(Some(Box::new(v))), None => V::Opt(None) } },
         T::Vec(x) => {
-            let n = *r.pick(&[0usize, 0, 1, 2, 3, 12]);
+            let ne = NONEMPTY_VECS.load(std::sync::atomic::Ordering::Relaxed);
+            let n = if ne { *r.pick(&[1usize, 1, 2, 3]) } else { *r.pick(&[0usize, 0, 1, 2, 3, 12]) };
             let mut vs = vec![];
             for _ in 0..n { match gen_val(r, env, x, b) { Some(v) => vs.push(v), None => break } }
+            if ne && vs.is_empty() { return None; }
             V::Vec(vs)
         }
         T::Rec(fs) => { let mut o = vec![]; for (i, ft) in fs { o.push((*i, gen_val(r, env, ft, b)?)); } V::Rec(o) }
